@@ -1,6 +1,21 @@
-BOUNDS = 'tbd'
-OUTSIDE = 'tbd'
-ASSUMPTIONS = []
+BOUNDS = ('line (bresenham_line_rasterizer): all four end point coordinates symbolic in [-N,N] (N=4 quick, N=8 thorough), i.e. every direction vector with '
+          '|dx|,|dy| <= 2N in every position; the major extent M = max(|dx|,|dy|) in 0..2N is concrete per query (it decides point_count(), the size of the '
+          'exactly-point_count() output array and the loop count), orientation, signs, minor extent and position stay symbolic; clauses that fail on the '
+          'unchanged tree are split into the class "minor extent >= 1 and M+1 >= 4*(minor extent+1)" (kept as its own failing query) and its complement (must pass). '
+          'apply_rasterizer(line): both extents concrete per query (0 <= minor <= major <= 2N), both orientations and all four directions, view = exactly the bounding '
+          'box over an exact-size pixel buffer, symbolic colour.  '
+          'midpoint circle: radius concrete per query 0..6 (quick) / 0..12 (thorough), centre symbolic in [-16,16]^2; written points checked through one symbolic index; '
+          'one-pixel band is the exact Euclidean one (r-1)^2 <= x^2+y^2 <= (r+1)^2; apply_rasterizer on a (2r+1+pad)^2 view, pad 0 (quick) and 1, centre symbolic among the fitting positions.  '
+          'midpoint ellipse: semi-axes concrete per query 0..3 (quick; trajectory clauses 0..5) / 0..6 (thorough), centre symbolic; first-quadrant trajectory in [0,a]x[0,b], within one pixel of the curve '
+          'measured along an axis (sign change of b^2x^2+a^2y^2-a^2b^2 across a unit step), 8-connected from the x axis to the y axis; draw_curve on a (2a+3)x(2b+3) view with the '
+          'centre symbolic among the 3x3 fitting positions: one symbolic pixel: 4-fold symmetry about the centre pixel, untouched outside the bounding box, drawn pixels within one pixel; '
+          'apply_rasterizer(ellipse) on small concrete views with the centre symbolic in [0,w+a+2]x[0,h+b+2] (curve partly or wholly outside): writes clipped (exact-size buffer).')
+OUTSIDE = ('trigonometric_circle_rasterizer (atan2/sin/cos decide the iteration count and every point: libm is not modelled); extents, radii and semi-axes above the bounds; '
+           'coordinates near the limits of ptrdiff_t; semi-axes > 65535 (unsigned int products in obtain_trajectory wrap); pixel types other than gray8 in apply_rasterizer; '
+           'the ellipse rasterizer has no point_count(), that clause applies to line and circle only')
+ASSUMPTIONS = ['end points, centres, radii and semi-axes are small integers as stated in the bounds',
+               'the ellipse centre is 1-based as documented in draw_curve (centre pixel = centre - (1,1))',
+               '"closed" is read both as closed under the symmetry group and as a closed 8-connected curve (every circle point has two distinct 8-neighbours in the set; the ellipse quadrant trajectory is 8-connected and joins both axes)']
 def long_shallow(M, k): return k >= 1 and M + 1 >= 4 * (k + 1)
 def queries(tier, seed):
     qs = []
@@ -9,27 +24,44 @@ def queries(tier, seed):
         for M in range(0, 2 * N + 1):
             u = M + 3
             has_ls = any(long_shallow(M, k) for k in range(0, M + 1))
+            # count / first / last, and 8-connected + monotone: hold for every input
             for ent in ('ends', 'step'):
                 qs.append(Q('line/N%d/%s/M%d' % (N, ent, M), L, 'h_line_' + ent, params=[N, 0, M], unwind=u, tier=t, timeout=120))
+            # bounding box, one-pixel distance: split where the long shallow class is inhabited (M >= 7)
             for ent in ('bbox', 'dist'):
+                kw = dict(unwind=u, tier=t, timeout=120 if N == 4 else 600, solvers=['minisat:20', 'kissat'] if M <= 8 else ['kissat'])
                 if not has_ls:
-                    qs.append(Q('line/N%d/%s/M%d' % (N, ent, M), L, 'h_line_' + ent, params=[N, 0, M], unwind=u, tier=t, timeout=120))
+                    qs.append(Q('line/N%d/%s/M%d' % (N, ent, M), L, 'h_line_' + ent, params=[N, 0, M], **kw))
                 else:
-                    qs.append(Q('line/N%d/%s/M%d/not_long_shallow' % (N, ent, M), L, 'h_line_' + ent, params=[N, 1, M], unwind=u, tier=t, timeout=120))
-                    qs.append(Q('line/N%d/%s/M%d/long_shallow' % (N, ent, M), L, 'h_line_' + ent, params=[N, 2, M], unwind=u, tier=t, timeout=120))
+                    qs.append(Q('line/N%d/%s/M%d/not_long_shallow' % (N, ent, M), L, 'h_line_' + ent, params=[N, 1, M], **kw))
+                    qs.append(Q('line/N%d/%s/M%d/long_shallow' % (N, ent, M), L, 'h_line_' + ent, params=[N, 2, M],
+                                note='input class on which the unchanged tree overshoots the end row/column (slope (|dy|+1)/(|dx|+1))', **kw))
     # apply_rasterizer(line): both extents concrete
-    for N, t in ((4, 'quick'), (8, 'thorough')):
-        for M in range(0, 2 * N + 1):
-            for k in range(0, M + 1):
-                if N == 8 and M <= 8: continue
-                ls = long_shallow(M, k)
-                qs.append(Q('line/apply/%dx%d%s' % (M, k, '/long_shallow' if ls else ''), L, 'h_line_apply', params=[M, k], unwind=M + 3, tier=t, timeout=120))
+    for M in range(0, 17):
+        for k in range(0, M + 1):
+            ls = long_shallow(M, k)
+            qs.append(Q('line/apply/%dx%d%s' % (M, k, '/long_shallow' if ls else ''), L, 'h_line_apply', params=[M, k], unwind=max(M + 3, 6),
+                        tier='quick' if M <= 8 else 'thorough', timeout=120))
     C = 'C20/circle.cpp'
     for r in range(0, 13):
         t = 'quick' if r <= 6 else 'thorough'
-        n = 8 * (r + 2)
+        n = 16 * (r + 2)      # harness-side cap on point_count(); the real count is 8*(round(r*cos(pi/4))+1)
         for ent in ('count', 'band', 'bbox', 'sym', 'closed'):
-            qs.append(Q('circle/r%d/%s' % (r, ent), C, 'h_circle_' + ent, params=[r], unwind=n + 2, tier=t, timeout=120))
+            qs.append(Q('circle/r%d/%s' % (r, ent), C, 'h_circle_' + ent, params=[r], unwind=n + 2, tier=t, timeout=120 if r <= 6 else 600))
         for pad in (0, 1):
-            qs.append(Q('circle/r%d/apply/pad%d' % (r, pad), C, 'h_circle_apply', params=[r, pad], unwind=n + 2, tier=t, timeout=120))
-    return qs
+            qs.append(Q('circle/r%d/apply/pad%d' % (r, pad), C, 'h_circle_apply', params=[r, pad], unwind=n + 2, tier=t if pad == 0 else 'thorough', timeout=120 if r <= 6 else 600))
+    E = 'C20/ellipse.cpp'
+    for a in range(0, 7):
+        for b in range(0, 7):
+            t = 'quick' if (a <= 3 and b <= 3) else 'thorough'
+            u = (2 * a + 3) * (2 * b + 3) + 2
+            qs.append(Q('ellipse/%dx%d/traj' % (a, b), E, 'h_ell_traj', params=[a, b], unwind=a + b + 4, tier='quick' if (a <= 5 and b <= 5) else 'thorough', timeout=120))
+            qs.append(Q('ellipse/%dx%d/draw' % (a, b), E, 'h_ell_draw', params=[a, b], unwind=u, tier=t, timeout=300))
+            for (w, h, tt) in ((max(1, a + 1), max(1, b), t), (1, 1, 'thorough'), (2 * a + 1, b + 2, 'thorough')):
+                qs.append(Q('ellipse/%dx%d/clip_%dx%d' % (a, b, w, h), E, 'h_ell_clip', params=[a, b, w, h], unwind=a + b + 4, tier=tt, timeout=120))
+    # drop duplicate clip shapes (a=0,b<=1 give 1x1 twice)
+    seen = set(); out = []
+    for q in qs:
+        if q.name in seen: continue
+        seen.add(q.name); out.append(q)
+    return out
